@@ -34,7 +34,7 @@ finally:
         sh("git -C /repo checkout -- .")
     else:
         import hashlib
-        sh("rm -rf %s /verif/.build/alt_%s" % (cp, hashlib.sha256(cp.encode()).hexdigest()[:8]))
+        sh("rm -rf %s /verif/.build/*alt_%s" % (cp, hashlib.sha256(cp.encode()).hexdigest()[:8]))
 # the run regenerated Gen/*.lean from the changed tree: restore the committed (clean-tree) files
 sh("git -C /verif checkout -- lean/CMacVerif/Gen")
 viol = [l for l in out.split("\n") if l.startswith("VIOLATION")]
